@@ -127,4 +127,26 @@ PROPS = {
             "a file that exists at the location but is not a Jubako pack at all makes locate return an error (not 'missing'); not in the property's quantifier and not generated",
         ],
     },
+    "C05": {
+        "theorems": "JubakoModel.Theorems.C05",
+        "harness": "c06",
+        "sig_include": "^c05-|^create|^pristine",
+        "profiles": ["debug"],
+        "rule": "one case = one base container (quick: one-file/none exhaustive, two-files/zstd, no-concat/lz4; thorough: 3 packagings x {none,zstd,lz4,lzma}) damaged, one file at a time, by: every byte position x masks {01,80,FF} (exhaustive on the small base, 150/600 sampled positions x {01,FF} otherwise), 25/120 zeroed or randomly overwritten ranges of 1..300 bytes, truncation at every length (exhaustive small, sampled + boundaries otherwise), appended garbage, and non-Jubako files of 0/1/59/60/63/64/100/4096 bytes; each damaged container is read by the full reader script (open, every entry and value, every content streamed, check) in a supervised worker; a returned value must have exactly the undamaged structure, and differing content bytes must make check() not true; a sample of the damaged directories is also read by the Lean reader (ct.read) and compared; non-trivial = at least one damaged variant read",
+        "assumptions": [
+            "a 32-bit CRC admits collisions: the unconditional theorem covers alterations confined to 4 consecutive bytes of a block; wider damage carries an explicit collision disjunct",
+            "cluster payloads carry no CRC by design: only the integrity check (blake3) covers them",
+        ],
+    },
+    "C06": {
+        "theorems": "JubakoModel.Theorems.C06",
+        "harness": "c06",
+        "sig_include": "^c06-|^create|^pristine|^process-died",
+        "profiles": ["debug", "release"],
+        "rule": "same damaged-file families as C05, run with the harness and the library built in debug AND in release (the worker process is the same executable, so debug_assert and overflow checks follow the profile); each read runs in a supervised worker process with a 20 s wall-clock bound; outcome classes: value / error are accepted, panic (caught, with site), abort of the process (e.g. a panic inside the decompression pool), death by signal and timeout are failures attributed to the damaged file in flight; the Lean reader's outcome class (value+dump+check / error / crash) is compared on a sample; non-trivial = at least one damaged variant read",
+        "assumptions": [
+            "storage and transfer damage only: files whose blocks were re-checksummed by an adversary are outside the claim",
+            "real SIGBUS/SIGSEGV, allocator aborts and OS-level blocking can only be exhibited by the runner, not by the model",
+        ],
+    },
 }
